@@ -32,7 +32,9 @@ prop("C16", [
     dict(engine="verus", unit="bucket"),
     dict(engine="verus", unit="cookies"),
     dict(engine="kani", sets=["dns_bucket"]),
-], explanation="token bucket contracts (check/deplete) against avail(); rate-bound and quiet-client lemmas over the contracts",
+    # hash_ip deterministic (assumed by unit bucket) and its consequence, the per-source bound, on the real limiter
+    dict(engine="sql", module="ratelimit", domain="hash_ip on 40 addresses x 2 seeds x 4 calls; 2000 back-to-back requests of cost 1/10/50/100 from one address (6 addresses)"),
+], explanation="token bucket contracts (check/deplete) against avail(); rate-bound and quiet-client lemmas over the contracts; a source always maps to the same two buckets (bounded, real code)",
     assumptions=["clock readings satisfy 50 <= now <= 0xF0000000 (trait Clock::now ensures, assumed)",
                  "deplete is evaluated at the same clock reading as the check that granted it (single task; read-then-write race not modelled)"])
 
@@ -135,6 +137,9 @@ prop("C03", [
     # name, type, DO and CD bits in class IN (other classes never use the map), aged and otherwise unchanged
     dict(engine="verus", unit="cache", fns=["CacheHandler::handle_query", "CacheHandler::get_entry", "clone_with_ttl_decrement_out_reply", "clone_out_reply"]),
     dict(engine="verus", unit="dnsttl"),
+    # "TTLs only ever reduced by the time spent in the cache": no wrap, which rests on the cache lifetime being the smallest TTL of ALL sections
+    dict(engine="kani", sets=["dns_ttl"]),
+    dict(engine="sql", module="cache", domain="as for C06"),
 ], explanation="create_in_reply: the client reply is the upstream reply under the client's id and question, for any number of records; "
                "push_rr: every name is written with the base offset of the buffer it is written into (emission-point precondition of the compression dictionary)")
 
